@@ -2,51 +2,69 @@
 
 Technique: runtime monitoring.  The real `md.compute_dssp` (simplified and full) and `md.kabsch_sander` run on
 protein workloads; an independent reference model of the DSSP rules (vlib/oracle/c15_dssp.py, written from Kabsch &
-Sander 1983 and the DSSP-2.2.0 description, bring-up against the mkdssp-2.2.1 outputs in tests/data/dssp) is applied to
-the H-bond pattern that kabsch_sander reports for the same frame and to the CA coordinates of that frame, and observes
-every residue of every frame.
+Sander 1983 and the DSSP-2.2.0 description; brought up against compute_dssp AND the mkdssp-2.2.1 outputs stored in
+tests/data/dssp: identical on 1bpi, 1vii, 1am7, 4ZUO and the 20 models of 2EQQ) is applied to the H-bond pattern that
+kabsch_sander reports for the same frame and to the CA coordinates of that frame, and observes every residue of every
+frame.
 
-Workload (all seeded from the case descriptor): the test-data proteins (BPTI x2, villin, 2EQQ 20 NMR models, 1am7, 4OH9,
-4ZUO / 1ncw / 3nch multi-chain crystal structures with waters and ligands, solvated peptides, tri-peptides), synthetic
-poly-peptides built from ideal internal coordinates (alpha / 3-10 / pi / beta / PPII / hairpin segments with torsion
-jitter), 1..20 frames, Gaussian noise 0..0.05 nm, global compression/expansion, segments translated or blown up
-(partial unfolding), two structures stacked (Trajectory.stack) at contact distance, chain subsets and short residue
-windows, and topologies rebuilt through the public construction API with edits: backbone atoms N/CA/C/O deleted from
-residues (biased towards residues inside helices and sheets), chains split, water / ion / ligand residues inserted
-between protein residues and between chains.
+Workload (all seeded from the case descriptor)
+  * test-data proteins: BPTI x2, villin, 2EQQ (20 NMR models), 1am7, 4OH9, 4ZUO / 1ncw / 3nch (multi-chain crystal
+    structures with waters and ligands; random chain subsets), solvated peptides, tri-peptides; 1..20 frames; Gaussian
+    noise 0..0.05 nm per frame; global compression / expansion 0.9..1.1; segments translated or blown up (partial
+    unfolding); two structures stacked (Trajectory.stack) at contact distance; short residue windows (1..20 residues);
+  * synthetic poly-peptides from ideal internal coordinates (alpha / 3-10 / pi / beta / PPII / hairpin / random
+    torsions, jitter 0..15 degrees per frame);
+  * designed H-bond patterns: free-standing peptide units laid out so that kabsch_sander reports (nearly) a chosen
+    pattern -- n-turn series of all three kinds overlapping each other, parallel and antiparallel ladders, two or three
+    ladders separated by every gap pair (g1, g2) in 0..6 x 0..6, three-stranded sheets, helices running into ladders,
+    pairs satisfying both bridge patterns, ladders whose second strands overlap, random extra bonds, random bond
+    deletions; a different pattern in every frame.  The pattern only steers the workload: the model input is what
+    kabsch_sander reports;
+  * topology edits through the public construction API on all of the above: backbone atoms N / CA / C / O deleted
+    (biased towards residues inside helices and sheets), chains split, water / ion / ligand / cap residues inserted
+    between protein residues and between chains.
 
 Monitors
   rules.code            per frame and complete residue: reported full code == model code.  Three-valued: the model is
                         evaluated under every reading the publication leaves open and a residue is decided only where
                         all readings agree:
-                          chain continuity: (S) an incomplete residue interrupts the chain; (S+d) additionally a
-                          peptide bond C(i)-N(i+1) > 0.25 nm interrupts it (K&S chain-break criterion; the statement and
-                          mdtraj define chains by the topology only); (D+d) incomplete residues are dropped from the
-                          sequence, which closes over them unless the C-N distance says otherwise (what the DSSP
-                          program does with hetero residues listed between protein residues);
+                          incomplete residue inside a chain: (S) it interrupts the chain; (D+d) it is dropped from the
+                          sequence, which closes over it when the flanking residues are peptide-bonded (C-N <= 0.25 nm)
+                          -- what the DSSP program does with hetero residues listed between protein residues;
                           a residue pair satisfying the parallel and the antiparallel pattern at once: either type;
                           two ladders sharing one residue on the second strand: bulge-linked or not;
+                          a ladder that can be bulge-linked to two ladders on the same side: all such links or none
+                          (a sequential program's result depends on its visiting order);
                           kappa within 1e-3 degree of 70 (or undefined: coincident CA atoms): S or not.
                         reported code equal to all readings -> ok; equal to some -> skip; equal to none -> violation.
+                        Chains are those of the topology: K&S' peptide-bond-length chain-break criterion is not part
+                        of the statement and is not applied between listed neighbours.
   rules.simplified-code the same comparison for simplified=True against the 3-letter image of the model
   shape                 (n_frames, n_residues) for both outputs
   alphabet              full codes in {H,B,E,G,I,T,S,' ','NA'}, simplified in {H,E,C,'NA'}
   na-mask               'NA' exactly on residues lacking N, CA, C or O (names read from the topology by this module)
   simplified-image      simplified output == {H,G,I->H; E,B->E; T,S,' '->C; NA->NA}(full output), every frame
   frame-context         compute_dssp(t)[i] == compute_dssp(t[i])[0] for every frame, both outputs (exact)
-  junk-differential     the frames embedded in a guard buffer between junk frames (NaN, +-1e30, zeros, scrambled atoms)
-                        give the identical rows
+  junk-differential     the frames embedded in a guard buffer between junk frames (NaN, inf, +-1e30, zeros, scrambled
+                        atoms) give the identical rows
   ks.input              the kabsch_sander matrices used as model input: shape, all stored values < -0.5, no entry on an
                         incomplete residue (otherwise the input is not a pattern in the sense of the statement: skip)
 
 Rules pinned by a second opinion rather than by the paper's text: E wins over B on a residue that is in a ladder and in
-an isolated bridge (mkdssp output for 1bpi residue 21, 4ZUO); G/I minimal helices are assigned all-or-nothing (DSSP
-program; K&S list the priority H,B,E,G,I,T,S).  Rules not pinned and therefore skipped: see the readings above.
+an isolated bridge (mkdssp output for 1bpi residue 21 and 4ZUO); G / I minimal helices are assigned all-or-nothing, I
+may replace H ("prefer pi helices", dssp.cpp comment) but not E/B/G (DSSP-2.2.0).  Rules not pinned, hence skipped:
+the readings listed above.
 
-Violation keys: compute_dssp:chain-continuity-ignores-incomplete-residues (reported code is what one gets when an
-incomplete residue keeps its place in the i+-k arithmetic and only lacks H-bonds of its own),
-compute_dssp:code:expected=<X>:reported=<Y>, compute_dssp:simplified-code:..., compute_dssp:shape, :alphabet, :NA-mask:*,
-:simplified-is-not-image-of-full, :frame-context, :junk-differential.
+Violation keys (mechanisms)
+  compute_dssp:chain-continuity-ignores-incomplete-residues   the reported code is wrong under every reading and is
+      what results when an incomplete residue keeps its place in the i+-k arithmetic and merely has no H-bonds / CA of
+      its own (n-turns and helices spanning it, bridges whose triple contains it, bends across it, index distances
+      shifted by an inserted hetero residue) -- or lies in a ladder region that exists only under that lenient reading
+  compute_dssp:bulge-link-of-ladders-with-overlapping-strands the residue lies within 4 residues of two ladders of one
+      type that follow each other on the first strand but overlap on the second (no gap => no bulge link)
+  compute_dssp:code:expected=<X>:reported=<Y> / compute_dssp:simplified-code:...   any other disagreement
+  compute_dssp:shape, :alphabet:*, :NA-mask:*, :simplified-is-not-image-of-full, :frame-context, :junk-differential,
+  kabsch_sander:matrix-shape
 """
 from __future__ import annotations
 
@@ -81,10 +99,13 @@ ASSUMPTIONS = [
     "(value < -0.5 kcal/mol); the matrix lists at most the two best acceptors per N-H, as the DSSP program does",
     "a residue is complete when it has atoms named N, CA, C and O; only complete residues can be residue i or j of a "
     "pattern; how an incomplete residue in the middle of a chain affects its neighbours is decided only where the "
-    "readings S, S+d and D+d (module docstring) agree",
-    "DSSP-2.2.0 conventions: bridge partners at least 3 apart; parallel type wins is NOT assumed (skipped); E over B; "
+    "readings S and D+d (module docstring) agree; chains are the chains of the topology (no peptide-bond-length "
+    "criterion between listed neighbours)",
+    "DSSP-2.2.0 conventions: bridge partners at least 3 apart; a pair matching both bridge patterns is skipped; E over B; "
     "alpha overrides E/B; G only on residues not yet assigned (all three); I on residues not assigned or H (all five); "
-    "T then S on residues still unassigned; bulge link: gaps (<=4, <=1) in either order",
+    "T then S on residues still unassigned; bulge link: gaps (<=4, <=1) in either order, both gaps >= 0 (a shared "
+    "residue, gap -1, is skipped; overlapping strands are never linked); linked ladders of >= 2 bridges in total are E "
+    "including the gap residues",
     "bend: kappa(i) > 70 degrees from CA(i-2), CA(i), CA(i+2) inside one chain segment; decisions within 1e-3 degree "
     "are skipped",
 ]
@@ -98,7 +119,7 @@ SOURCES_QUICK = ["1bpi.pdb", "designed", "bpti.pdb", "1vii.pdb", "designed", "2E
                  "designed", "4ZUO.pdb", "1ncw.pdb.gz", "designed", "1vii_sustiva_water.pdb", "frame0.h5", "designed",
                  "ala_ala_ala.pdb", "native.pdb", "designed", "1bpi.pdb", "2EQQ.pdb", "synthetic", "designed"]
 SOURCES_THOROUGH = SOURCES_QUICK + ["3nch.pdb.gz", "GG-tip4pew.pdb", "4ZUO.pdb", "1ncw.pdb.gz", "synthetic"]
-NCASES = {"quick": 480, "thorough": 12000}
+NCASES = {"quick": 480, "thorough": 8000}
 NOISES = [0.0, 0.0, 0.002, 0.005, 0.01, 0.02, 0.03, 0.05]
 BIG = 400  # residues
 
@@ -828,11 +849,15 @@ def run_case(case, ctx):
                     if lenient is None:
                         ca = np.zeros((nres, 3))
                         ca[comp] = x64all[f][idx[comp, 1]]
-                        lenient = [ref.assign(hb, comp, chain, ca, na_breaks=False, link_mode=m) for m in ("max", "min")]
+                        # what results when incomplete residues only lack H-bonds of their own (all option readings)
+                        lenient = [ref.assign(hb, comp, chain, ca, na_breaks=False, link_mode=m, shared_gap=sg, both_type=bt)
+                                   for m in ("max", "min") for sg in (False, True) for bt in ("parallel", "antiparallel")]
                         overlap = set()
                         for res_ in results:
                             overlap |= res_.info["overlap_residues"]
-                        len_region = lenient[0].info["overlap_residues"] | lenient[0].info["ambiguous_residues"]
+                        len_region = set()
+                        for L in lenient:
+                            len_region |= L.info["overlap_residues"] | L.info["ambiguous_residues"]
                     exp = codes0[r] if kind == "rules.code" else ref.SIMPLIFIED[codes0[r]]
                     len_codes = set(L.codes[r] if kind == "rules.code" else ref.SIMPLIFIED[L.codes[r]] for L in lenient)
                     tag = "code" if kind == "rules.code" else "simplified-code"
